@@ -148,6 +148,36 @@ func directC06extra(g *G, rep *Report) {
 			}
 		}
 	}
+	// 1d. a writer that fails while a {msg} with HTML tags late in a long text is being written, in a SHORT file
+	// (the pieces of a message's text are nodes of their own: their positions must lie inside the file)
+	for _, body := range []string{strings.Repeat("a", 60) + "<b>", strings.Repeat("word ", 40) + "<br/>tail<i>x</i>", "<a href=\"x\">" + strings.Repeat("é", 50) + "</a>", strings.Repeat("x", 200) + "{$s}<b>y</b>"} {
+		src := "{namespace m}\n/** @param? s */\n{template .t}\n{msg desc=\"d\"}" + body + "{/msg}{if false}{$s}{/if}{/template}\n"
+		for failAt := 0; failAt < 12; failAt++ {
+			var class string
+			c := guarded(5*time.Second, func() {
+				tofu, err := soy.NewBundle().AddTemplateString("m.soy", src).CompileToTofu()
+				if err != nil {
+					class = "COMPILE-ERR"
+					return
+				}
+				if err := tofu.Render(&faultWriter{room: 1 << 30, failAt: failAt}, "m.t", data.Map{"s": data.String("S")}); err != nil {
+					class = "ERR"
+				} else {
+					class = "OK"
+				}
+			})
+			if c != "" {
+				class = c
+			}
+			rep.Evaluations++
+			rep.Distribution["msg-failing-writer:"+class]++
+			if class == "PANIC" || class == "HANG" {
+				viol("msg-failing-writer-"+class, "rendering a message into a writer that fails at call "+strconv.Itoa(failAt)+" did not return normally: "+class, src, class)
+			} else if class != "COMPILE-ERR" {
+				rep.DistinctNT++
+			}
+		}
+	}
 	// 2. range() with hostile arguments
 	argv := []string{"0", "1", "3", "-1", "-3", "0.5", "-0.5", "0.0", "2.5", "1e300", "'2'", "null", "[1]", "true", "$i", "$f", "$h", "$z", "$s", "$n", "$l"}
 	// the ends of the integer range: index += step must not wrap around (short ranges only: a range of 2^62
